@@ -268,9 +268,16 @@ def run(ctx):
     # ------------------------------------------------------------------ R6
     pl = mod.func('Parameters.parse_line')
     branch_aliases = []
-    for node in walk_no_nested(pl):
-        if isinstance(node, ast.Compare) and isinstance(node.ops[0], ast.Is) \
-                and norm(node.left) == 'typeannotation':
+    # the dispatch variable: the local every `is <alias>` test compares
+    is_tests = [node for node in walk_no_nested(pl) if isinstance(node, ast.Compare)
+                and isinstance(node.ops[0], ast.Is) and isinstance(node.left, ast.Name)
+                and not (isinstance(node.comparators[0], ast.Constant))]
+    subjects = {}
+    for node in is_tests:
+        subjects[node.left.id] = subjects.get(node.left.id, 0) + 1
+    subject = max(subjects, key=subjects.get) if subjects else None
+    for node in is_tests:
+        if node.left.id == subject:
             branch_aliases.append(norm(node.comparators[0]))
     ctx.ob('C18.R6', 'dispatch:no-duplicate-branch',
            len(branch_aliases) == len(set(branch_aliases)),
